@@ -872,6 +872,10 @@ class Parser(object):
         return tags
 
     def parse_step(self, line):
+        # -- SELECT: Longest matching step-keyword.
+        # REASON: A keyword alias may be the prefix of another keyword alias,
+        #   like: "Lè " (when) and "Lè sa a " (then) in language "ht".
+        selected = None
         for step_type in ("given", "when", "then", "and", "but"):
             for kw in self.keywords[step_type]:
                 # try to match the keyword; also attempt a purely lowercase
@@ -880,35 +884,42 @@ class Parser(object):
                         line.lower().startswith(kw.lower())):
                     # -- CASE: Line does not start w/ a step-keyword.
                     continue
+                exact = line.startswith(kw)
+                if (selected is None or len(kw) > len(selected[1]) or
+                        (len(kw) == len(selected[1]) and exact and not selected[2])):
+                    selected = (step_type, kw, exact)
 
-                # -- HINT: Trailing SPACE is used for most keywords.
-                # BUT: Keywords in some languages (like Chinese, Japanese, ...)
-                #      do not need a whitespace as word separator.
-                step_text_after_keyword = line[len(kw):].strip()
-                if kw.startswith("*") and self.last_step_type:
-                    # -- CASE: Generic steps and Given/When/Then steps are mixed.
-                    # HINT: Inherit step type from last step.
-                    step_type = self.last_step_type
-                elif step_type in ("and", "but"):
-                    if not self.last_step_type:
-                        # -- BEST-EFFORT: Try to use last background.step.
-                        self.last_step_type = self._select_last_background_step_type()
-                        if not self.last_step_type:
-                            msg = u"{step_type}-STEP REQUIRES: An previous Given/When/Then step."
-                            raise ParserError(msg.format(step_type=step_type.upper()),
-                                              self.line, self.filename)
+        if selected is None:
+            return None
 
-                    assert self.last_step_type is not None
-                    step_type = self.last_step_type
-                    assert step_type is not None
-                else:
-                    self.last_step_type = step_type
+        step_type, kw, _ = selected
+        # -- HINT: Trailing SPACE is used for most keywords.
+        # BUT: Keywords in some languages (like Chinese, Japanese, ...)
+        #      do not need a whitespace as word separator.
+        step_text_after_keyword = line[len(kw):].strip()
+        if kw.startswith("*") and self.last_step_type:
+            # -- CASE: Generic steps and Given/When/Then steps are mixed.
+            # HINT: Inherit step type from last step.
+            step_type = self.last_step_type
+        elif step_type in ("and", "but"):
+            if not self.last_step_type:
+                # -- BEST-EFFORT: Try to use last background.step.
+                self.last_step_type = self._select_last_background_step_type()
+                if not self.last_step_type:
+                    msg = u"{step_type}-STEP REQUIRES: An previous Given/When/Then step."
+                    raise ParserError(msg.format(step_type=step_type.upper()),
+                                      self.line, self.filename)
 
-                keyword = kw.rstrip()  # HINT: Strip optional trailing SPACE.
-                step = model.Step(self.filename, self.line,
-                                  keyword, step_type, step_text_after_keyword)
-                return step
-        return None
+            assert self.last_step_type is not None
+            step_type = self.last_step_type
+            assert step_type is not None
+        else:
+            self.last_step_type = step_type
+
+        keyword = kw.rstrip()  # HINT: Strip optional trailing SPACE.
+        step = model.Step(self.filename, self.line,
+                          keyword, step_type, step_text_after_keyword)
+        return step
 
     def _select_last_background_step_type(self):
         # -- CASES:
